@@ -86,8 +86,13 @@ func Value(r *rand.Rand, v *Vocab, depth int) any {
 			"props": map[string]any{v.Props[r.Intn(len(v.Props))]: Scalar(r)},
 			"refs":  map[string]any{},
 		}
-		if r.Intn(2) == 0 {
+		switch r.Intn(4) {
+		case 0:
 			ne["refs"].(map[string]any)[v.Preds[r.Intn(len(v.Preds))]] = v.IDs[r.Intn(len(v.IDs))]
+		case 1: // list-valued reference inside the nested entity
+			ne["refs"].(map[string]any)[v.Preds[r.Intn(len(v.Preds))]] = []any{v.IDs[r.Intn(len(v.IDs))], v.IDs[r.Intn(len(v.IDs))]}
+		case 2: // array-valued property inside the nested entity
+			ne["props"].(map[string]any)[v.Props[r.Intn(len(v.Props))]] = []any{Scalar(r), Scalar(r)}
 		}
 		return ne
 	default:
